@@ -203,7 +203,7 @@ PROPS["C04"] = {
 }
 PROPS["C09"] = {
     "level": "proof",
-    "prop_modules": ["Flounder.Props.C09", "Flounder.Props.C09Search", "Flounder.Props.C09SearchChess", "Flounder.Props.C09SearchExample"],
+    "prop_modules": ["Flounder.Props.C09", "Flounder.Props.C09Search", "Flounder.Props.C09SearchChess", "Flounder.Props.C09SearchExample", "Flounder.Props.C09Engine", "Flounder.Lemmas.QBudgetDraw"],
     "budget": {"quick": [("c09", 150)], "thorough": [("c09", 2500)], "search": [("c09", 5000)]},
     "rule": "histories with repetitions: games biased towards shuffling pieces back and forth (0/1/2/3 earlier occurrences of each candidate successor), several position commands in a row; after each command every successor of the current position is asked 'draw by repetition?' (hook verif_is_repetition_draw on the engine's own searcher) vs model vs a spec that counts positions in the history given with the LAST position command; long games in which the two earlier occurrences lie more than 100 plies back; after the last position command of a case a depth-1 SEARCH on the engine's own searcher, its value judged against max over moves of (0 for a third-occurrence successor, else minus the quiescence value), and depth 2-5 searches with the history in place tied to the model incl. node counts; depth 2-4 searches are additionally JUDGED against minimax-with-draws (Spec.Vd: every position that occurred twice in history + root is a leaf worth 0 below the root) whenever no deeper record was reused (theorem find_best_move_value_history)",
     "trusted_base": [KERNEL, AXIOMS, TIE, HASHINJ],
